@@ -3,8 +3,8 @@ PROPERTIES = ['C09', 'C10', 'C14']
 ENGINE = 'verus'
 CLASS = 'U'
 DOC = ('Table (storage/table/mod.rs): every mutator re-establishes "the hash indexes are in sync with the row vector" - the fact the UPDATE / DELETE '
-       'primary-key fast path (unit D-pk) and the PRIMARY KEY / UNIQUE checks rely on. IndexManager is an abstract interface with ASSUMED contracts '
-       '(its HashMap maintenance is outside the Verus subset); what is PROVED is the Table-level protocol: which IndexManager operation is called, '
+       'primary-key fast path (unit D-pk) and the PRIMARY KEY / UNIQUE checks rely on. IndexManager is an abstract interface with ASSUMED contracts here '
+       '(the real IndexManager operations are verified separately, unit K-index: exact effect of each maintenance call, mirror after rebuild); what is PROVED here is the Table-level protocol: which IndexManager operation is called, '
        'with which row / position, in which order - e.g. delete_where and remove_row end with a rebuild because removals shift positions.')
 
 TEMPLATE = r'''
@@ -205,7 +205,7 @@ OBLIGATIONS = {
 }
 CANARIES = ['canary_delete', 'canary_update']
 TRUSTED = [
-    'external_body IndexManager (new, rebuild, clear, update_for_insert, update_for_update, update_selective, update_for_delete, get_affected_indexes): ASSUMED contracts over the uninterpreted predicate synced(schema, rows); the HashMap<Vec<SqlValue>, usize> maintenance in table/indexes.rs (closures, iterator adapters, get_mut) is NOT verified. update_for_update / update_selective are assumed to re-sync only when handed the row that really was at that position',
+    'external_body IndexManager (new, rebuild, clear, update_for_insert, update_for_update, update_selective, update_for_delete, get_affected_indexes): ASSUMED contracts over the uninterpreted predicate synced(schema, rows); the HashMap<Vec<SqlValue>, usize> maintenance in table/indexes.rs is verified in unit K-index (exact per-call effects on the pk / unique maps; `mirrors` after rebuild) - the link synced == mirrors between the two units is by reading, not by a shared definition. update_for_update / update_selective are assumed to re-sync only when handed the row that really was at that position',
     'external_body Row (clone is a copy), TableSchema, AppendModeTracker::reset, TableStatistics, RowNormalizer (normalize_and_validate: any result), ColSet / IndexTypes (HashSet<usize>, Vec<IndexType>): opaque',
     'external_body RowPred::call / eq_to: the FnMut(&Row) -> bool parameter of delete_where as a pure function of the row; `|row| row == target` as its equality instance',
     'external_body position_of: rows.iter().position(|r| r == target) returns a valid position holding an equal row (std, Row::eq)',
